@@ -2,7 +2,11 @@
 
 package service
 
-import "github.com/mdzio/go-mqtt/message"
+import (
+	"fmt"
+
+	"github.com/mdzio/go-mqtt/message"
+)
 
 // C20: client library - connect results and callback dispatch mirror the protocol.
 
@@ -18,7 +22,8 @@ func H20_connect() {
 	vrtGo(func() {
 		m := message.NewConnectMessage()
 		m.SetVersion(4)
-		m.SetClientID([]byte("cl"))
+		vrtClientSeq++
+		m.SetClientID([]byte(fmt.Sprintf("cl%d", vrtClientSeq)))
 		m.SetCleanSession(true)
 		cerr = cln.Connect(vrtDialURI(), m)
 	})
